@@ -16,6 +16,7 @@ structure Parsed where
   runs : List (String × String)      -- parser ↦ "ok <info…>" | "err" | "panic"
   blocks : Nat := 0                  -- PEM blocks encoding/pem finds in the content, one after the other
   pgpBlocks : Nat := 0               -- … of which the label starts with "PGP "
+  notInstance : Option String := none -- by construction (and by the library) the content is NOT a well-formed instance of this parser's format
 
 partial def parseRuns : List String → Option (List (String × String))
   | [] => some []
@@ -26,6 +27,8 @@ partial def parseRuns : List String → Option (List (String × String))
   | _ => none
 
 def parseArgs : List String → Option Parsed
+  | name :: data :: "X" :: q :: rest =>
+    (parseArgs (name :: data :: rest)).map fun p => { p with notInstance := some q }
   | name :: data :: "B" :: t :: g :: "S" :: rest =>
     (parseArgs (name :: data :: "S" :: rest)).map fun p => { p with blocks := t.toNat?.getD 0, pgpBlocks := g.toNat?.getD 0 }
   | name :: data :: "S" :: rest =>
@@ -71,6 +74,14 @@ def sshPrefixes : List String := ["ssh-dss", "ssh-rsa", "ecdsa-sha2-", "ssh-ed25
 
 def holds (p : Parsed) (impl : String) : String :=
   let okRuns := p.runs.filter fun r => r.2.startsWith "ok "
+  -- (0) a failed attempt leaves no trace: content that by construction is NOT a well-formed instance of a format
+  --     (a component the library refuses) is not described as that format, not even partly
+  let halfFilled : Bool := match p.notInstance with
+    | some q => okRuns.any (fun r => r.1 == q && r.2 == impl) && impl != bareStr
+    | none => false
+  if halfFilled then
+    s!"FAILS no_trace: content whose {p.notInstance.getD ""} structure does not parse is described by that parser (half-filled description of a failed attempt)"
+  else
   -- (1) signature precedence: a well-formed instance of a signature format is described as that format
   match signatures.find? (fun s => s.1.isPrefixOf p.data) with
   | some (_, parser) =>
